@@ -46,7 +46,8 @@ func (p *ParserZH) ParseAST(l *syntax.Lexer) (pg *syntax.Program, err error) {
 	// ensure there's no remaining token after parsing global block
 	if p.peek().Type != TypeEOF {
 		// either a tree or an error, never a tree of the first part of the text with an error
-		return nil, p.getInvalidSyntaxCurr()
+		// (the offending token is the one that could not be consumed, not the last accepted one)
+		return nil, p.getInvalidSyntaxPeek()
 	}
 	return
 }
